@@ -78,6 +78,7 @@ def initial_arm_region(b, field):
 
 
 def run(ctx):
+    a6_reply_path_is_the_owners(ctx)
     a5_credentials_not_process_wide(ctx)
     prog = ctx.prog
     bodies = [b for b in prog.prod_bodies() if "::_" not in b.defp]
@@ -425,3 +426,18 @@ def a5_credentials_not_process_wide(ctx):
         ctx.ob("A5", b.defp, f"credential-state-is-per-listener:{last_seg(it['path'])}", loc(t["sp"]), reason is None,
                reason or f"static {last_seg(it['path'])} is filled with a value that has no run-time input")
     ctx.ob("A5", "workspace", "single-slot-statics-inventoried", "-", True, f"{len(fills)} fill site(s) of single-slot statics", nontrivial=False, ordinal=False)
+
+
+def a6_reply_path_is_the_owners(ctx):
+    """A6: answers on a user's association go to the address recorded for it, not to whoever sent the most recent datagram naming its session id (C02 U3 re-evaluated: the reply path is part of "attributed under another user")"""
+    from ..engine import Ctx
+    from . import c02
+    sub = Ctx(ctx.prog, "C02", ctx.tier)
+    c02.run(sub)
+    n = 0
+    for o in sub.obs:
+        if o.rule == "U3" and ("reply" in o.key or "association-address" in o.key):
+            n += 1
+            parts = o.key.split("|")
+            ctx.ob("A6", parts[1], parts[2], o.where, o.ok, o.detail)
+    ctx.floor("A6", "association reply-path obligations (U3)", 2, n)
